@@ -1,4 +1,120 @@
+(* C10 — Recorded revenue equals the money that moved.  Statements only; every proof is [exact lemma].
+
+   Models: Model.v (v1 contracts: RHP2 + RHP3 handlers, account manager, store rows) and ModelV2.v
+   (v2 contracts: core's RHP4 revision arithmetic, hostd's contract manager and store rows).
+
+   Renter-chosen quantities.  In every [op] of Model.v the renter chooses: the payouts of a proposed
+   contract ([fcv]: valid renter/host, missed renter/host/void); the revision number and all five
+   output values of every payment / program / final revision ([prop], [fin_vr], [fin_vh]) — hence the
+   size of any over- or under-payment and how much collateral the host burns; which contract pays,
+   which account is refunded or charged and with which budget ([payment]); the program ([instr] list:
+   the instructions, and through their arguments whether one fails before or after it is paid for).
+   The host's side enters as the prices of its settings / price table (per-RPC [rcost]s are core's
+   price × quantity products, [price], [maxColl], [maxBal], ...).  The theorems quantify over all of
+   these at once: [forall l : list op].  In ModelV2.v the renter chooses allowance, collateral,
+   deposits, targets, which RPCs to run; usages are core's price × quantity products.
+
+   Readings.  "Σ of all recorded usage categories" = rpc + storage + ingress + egress + registry
+   read + registry write + unspent account funding (risked collateral is not revenue).  "After any
+   sequence of successful RPCs" is proved for any sequence of RPCs, successful or refused (a refused
+   RPC may already have credited the refund account: the equation holds in that state too).
+   v2 "recorded usage equals the sum of the usages of the accepted RPCs": every accepted RPC adds
+   exactly the Usage it was priced at, column by column ([c10_v2_step_exact]); account spending moves
+   value from the account-funding column into the revenue columns of the funding contracts and
+   changes no total ([c10_v2_usage_sum]). *)
 From HostdBase Require Import Base.
-From HostdRevenue Require Import Model.
-Example c10_tmp_nonvacuous : init = init.
-Proof. reflexivity. Qed.
+From HostdRevenue Require Import Model ModelV2 Proofs ProofsV2.
+Open Scope N_scope.
+
+(** * v1 *)
+
+(* After ANY sequence of form / renew-and-clear / sector-roots / read / write / fund-account /
+   pay-by-contract (price table, balance, latest revision) / execute-program with finalisation /
+   RHP3 renew RPCs, paid by contract or by account, with arbitrary renter-chosen values: for every
+   contract, the valid host payout of the latest signed revision = locked collateral + Σ usage. *)
+Theorem c10_v1_conservation : forall (l : list op) (r : crow),
+  In r (cons (runs init l)) ->
+  vh (crev r) = clocked r + (uRpc (cuse r) + uSto (cuse r) + uIng (cuse r) + uEgr (cuse r) +
+                            uRR (cuse r) + uRW (cuse r) + uFund (cuse r)).
+Proof. exact v1_conservation. Qed.
+Print Assumptions c10_v1_conservation.
+
+(* Per RPC: whatever the renter sends, a contract keeps its locked collateral and its valid host
+   payout moves by exactly what its recorded usage moves: no over-payment is dropped or booked twice. *)
+Theorem c10_v1_rpc_exact : forall (l : list op) (o : op) (c : N) (r : crow),
+  find_con c (cons (runs init l)) = Some r ->
+  exists r', find_con c (cons (fst (step (runs init l) o))) = Some r' /\
+    clocked r' = clocked r /\
+    vh (crev r') + usum (cuse r) = vh (crev r) + usum (cuse r').
+Proof. exact v1_rpc_exact. Qed.
+Print Assumptions c10_v1_rpc_exact.
+
+(* The unspent account funding of a contract is exactly what its funding rows still hold, so account
+   spending can always be taken out of it (the Sub in distributeRHP3AccountUsage cannot underflow). *)
+Theorem c10_v1_funding_backed : forall (l : list op) (r : crow),
+  In r (cons (runs init l)) -> uFund (cuse r) = fsum (cid r) (funds (runs init l)).
+Proof. exact v1_funding_backed. Qed.
+Print Assumptions c10_v1_funding_backed.
+
+(* Account spending (any debit, any state): every contract keeps its revision, locked collateral,
+   Σ usage and risked collateral — value only moves from account funding into revenue categories. *)
+Theorem c10_v1_account_spending_moves : forall s a u s' c r,
+  debit_store s a u = Ok s' -> find_con c (cons s) = Some r ->
+  exists r', find_con c (cons s') = Some r' /\ crev r' = crev r /\ clocked r' = clocked r /\
+    usum (cuse r') = usum (cuse r) /\ uRisk (cuse r') = uRisk (cuse r).
+Proof. exact v1_debit_moves. Qed.
+Print Assumptions c10_v1_account_spending_moves.
+
+(** * v2 *)
+
+(* An accepted RPC other than an account debit adds exactly the usage it was priced at. *)
+Theorem c10_v2_step_exact : forall s o s' c,
+  step_res2 s o = Ok s' -> (forall a u, o <> Debit4 a u) ->
+  use_of s' c = vadd (use_of s c) (passed s o c).
+Proof. exact v2_step_exact. Qed.
+Print Assumptions c10_v2_step_exact.
+
+(* After any sequence of form / append / free / sector-roots / fund / replenish / account-paid /
+   renew / refresh RPCs: the recorded renter spending and risked collateral of every contract are
+   the sums over its accepted RPCs; each revenue column holds at least what the RPCs booked there,
+   the difference came out of the account-funding column. *)
+Theorem c10_v2_usage_sum : forall (l : list op2) (c : N) (r : crow2),
+  find2 c (cons2 (runs2 init2 l)) = Some r ->
+  let h := hist init2 l c in
+  rcost2 (cuse2 r) = rcost2 h /\ vRisk (cuse2 r) = vRisk h /\
+  vRpc h <= vRpc (cuse2 r) /\ vSto h <= vSto (cuse2 r) /\ vEgr h <= vEgr (cuse2 r) /\ vIng h <= vIng (cuse2 r) /\
+  vFund (cuse2 r) <= vFund h.
+Proof. exact v2_usage_sum. Qed.
+Print Assumptions c10_v2_usage_sum.
+
+(* Hence, for a formed or renewed (not refreshed) contract: host output − total collateral =
+   recorded renter spending. *)
+Theorem c10_v2_spending : forall (l : list op2) (r : crow2),
+  In r (cons2 (runs2 init2 l)) -> ckind r <> KRefreshed ->
+  f2host (cfc r) = f2total (cfc r) +
+    (vRpc (cuse2 r) + vSto (cuse2 r) + vEgr (cuse2 r) + vIng (cuse2 r) + vFund (cuse2 r)).
+Proof. exact v2_spending. Qed.
+Print Assumptions c10_v2_spending.
+
+Theorem c10_v2_funding_backed : forall (l : list op2) (r : crow2),
+  In r (cons2 (runs2 init2 l)) -> vFund (cuse2 r) = fsum (cid2 r) (funds2 (runs2 init2 l)).
+Proof. exact v2_funding_backed. Qed.
+Print Assumptions c10_v2_funding_backed.
+
+(* The qualifier "not refreshed" is necessary: a refreshed contract carries its predecessor's
+   revenue in its host output but starts with a fresh usage. *)
+Theorem c10_v2_refreshed_excluded : exists (l : list op2) (r : crow2),
+  In r (cons2 (runs2 init2 l)) /\ ckind r = KRefreshed /\
+  f2host (cfc r) <> f2total (cfc r) + rcost2 (cuse2 r).
+Proof. exact v2_refreshed_witness. Qed.
+Print Assumptions c10_v2_refreshed_excluded.
+
+(* non-vacuity: a history with an over-paid write, a fund, a registry program paid by contract, a
+   failing program paid by account and a renewal is accepted step by step and ends in a state with
+   two contracts whose usage is spread over five categories *)
+Example c10_nonvacuous :
+  map (fun x => match snd x with Obs st _ _ => st end) (tr_v1 init demo_v1)
+    = [SOk; SOk; SOk; SOk; SErr; SOk]
+  /\ map (fun r => (usum (cuse r), uRR (cuse r), uFund (cuse r))) (cons (runs init demo_v1))
+    = [(751, 7, 505); (108, 0, 0)].
+Proof. vm_compute. split; reflexivity. Qed.
